@@ -1,71 +1,77 @@
 (* Properties/C20.v — Configuration hot reload is equivalent to a restart.  Statements only. *)
-From V Require Import Base.Util Model.Config.
-
-Definition same_effect (a b : cstate) : Prop :=
-  cs_eff a = cs_eff b /\ cs_roles a = cs_roles b /\ cs_keys a = cs_keys b.
+From V Require Import Base.Util Model.Config Proofs.ConfigProofs.
 
 (* After ANY history (whatever state [st] the earlier edits left behind), a reload that is accepted puts in effect
-   exactly what a freshly started gateway computes from the same file and environment — provided the in-memory poll
-   interval is parseable or the file sets it (guard of the recorded finding KF-stale-config-scalar). *)
+   exactly what a freshly started gateway computes from the same file and environment — configured services, the
+   BRAMBLE_SERVICE_LIST variable and the services contributed by the plugins the file enables, as a set and without
+   duplicates; roles and key ids — provided the in-memory poll interval is parseable or the file sets it (guard of the
+   recorded finding KF-stale-config-scalar). *)
 Theorem C20_reload_equals_restart_partial : forall env st f,
   (cs_poll_ok st = true \/ f_poll f <> None) ->
-  snd (load true env st f) = true ->
-  exists fr, fresh true env f = Some fr /\ same_effect (reload true env st f) fr.
-Proof.
-  intros env st f Hg Hok. unfold fresh, reload, load in *. cbn [cs_poll_ok zero] in *.
-  destruct (f_loadable f); cbn [negb orb] in *; [|discriminate].
-  assert (Hp : match f_poll f with Some b => b | None => cs_poll_ok st end = match f_poll f with Some b => b | None => true end).
-  { destruct (f_poll f) as [b|]; [reflexivity|]. destruct Hg as [Hg|Hg]; [exact Hg | contradiction]. }
-  rewrite Hp in *. destruct (match f_poll f with Some b => b | None => true end); cbn [negb] in *; [|discriminate].
-  destruct (union_set (match f_services f with Some l => l | None => [] end) env) eqn:Eu; cbn in *; [discriminate|].
-  eexists. split; [reflexivity|]. repeat split.
-Qed.
+  snd (load true true env st f) = true ->
+  exists fr, fresh true true env f = Some fr /\ same_effect (reload true true env st f) fr /\
+             NoDup (cs_eff (reload true true env st f)) /\ NoDup (cs_eff fr).
+Proof. exact reload_equals_restart. Qed.
 Print Assumptions C20_reload_equals_restart_partial.
 
 (* An edit that cannot be loaded leaves what is in effect untouched, whatever the previous state. *)
-Theorem C20_failed_edit_keeps_config : forall fixed env st f,
-  snd (load fixed env st f) = false -> same_effect (reload fixed env st f) st.
-Proof.
-  intros fixed env st f H. unfold reload. destruct (load fixed env st f) as [st' ok] eqn:E. simpl in H. subst ok.
-  unfold load in E.
-  destruct (negb (f_loadable f) || negb (match f_poll f with Some b => b | None => cs_poll_ok st end)).
-  - inversion E; subst. repeat split.
-  - destruct (union_set _ env); inversion E; subst. repeat split.
-Qed.
+Theorem C20_failed_edit_keeps_config : forall fixed pfixed env st f,
+  snd (load fixed pfixed env st f) = false -> same_effect (reload fixed pfixed env st f) st.
+Proof. exact failed_edit_keeps_config. Qed.
 Print Assumptions C20_failed_edit_keeps_config.
+
+(* ... and it does not stop later valid edits from being applied: what an accepted reload puts in effect does not depend
+   on the state the history (refused edits included) left behind. *)
+Theorem C20_accepted_reload_forgets_history_partial : forall env st1 st2 f,
+  (cs_poll_ok st1 = true \/ f_poll f <> None) -> (cs_poll_ok st2 = true \/ f_poll f <> None) ->
+  snd (load true true env st1 f) = true ->
+  snd (load true true env st2 f) = true /\ same_effect (reload true true env st1 f) (reload true true env st2 f).
+Proof. exact accepted_reload_forgets_history. Qed.
+Print Assumptions C20_accepted_reload_forgets_history_partial.
 
 (* FULL STATEMENT refuted on the code as it is: an unloadable edit with an invalid poll interval makes the next valid
    edit unloadable although a restart on that file succeeds (recorded finding KF-stale-config-scalar). *)
 Theorem C20_refuted_stale_scalar :
   exists env (f_bad f_good : file) fr,
-    let st0 := {| cs_mem := ["s1"]; cs_eff := ["s1"]; cs_roles := []; cs_keys := []; cs_poll_ok := true |} in
-    fresh true env f_good = Some fr /\ cs_eff (reload true env (reload true env st0 f_bad) f_good) <> cs_eff fr.
+    let st0 := {| cs_mem := ["s1"]; cs_eff := ["s1"]; cs_roles := []; cs_keys := []; cs_poll_ok := true; cs_plug := [] |} in
+    fresh true true env f_good = Some fr /\ cs_eff (reload true true env (reload true true env st0 f_bad) f_good) <> cs_eff fr.
 Proof.
-  exists [], {| f_loadable := true; f_poll := Some false; f_services := Some ["s2"]; f_roles := None; f_keys := None |},
-         {| f_loadable := true; f_poll := None; f_services := Some ["s3"]; f_roles := None; f_keys := None |}.
+  exists [], {| f_loadable := true; f_poll := Some false; f_services := Some ["s2"]; f_roles := None; f_keys := None; f_plug := [] |},
+         {| f_loadable := true; f_poll := None; f_services := Some ["s3"]; f_roles := None; f_keys := None; f_plug := [] |}.
   eexists. split; [vm_compute; reflexivity|]. vm_compute. discriminate.
 Qed.
 Print Assumptions C20_refuted_stale_scalar.
 
-(* the two defects repaired by fix commits 90f22df and f91d55c, as refutations of the model of d802d19 *)
+(* the defects repaired by fix commits, as refutations of the model of d802d19 *)
 Theorem C20_refuted_before_fix_omitted_services :
-  exists env st f fr, fresh false env f = Some fr /\ snd (load false env st f) = true /\ cs_eff (reload false env st f) <> cs_eff fr.
+  exists env st f fr, fresh false true env f = Some fr /\ snd (load false true env st f) = true /\ cs_eff (reload false true env st f) <> cs_eff fr.
 Proof.
-  exists ["e1"], {| cs_mem := ["s1"; "e1"]; cs_eff := ["s1"; "e1"]; cs_roles := []; cs_keys := []; cs_poll_ok := true |},
-         {| f_loadable := true; f_poll := None; f_services := None; f_roles := None; f_keys := None |}.
+  exists ["e1"], {| cs_mem := ["s1"; "e1"]; cs_eff := ["s1"; "e1"]; cs_roles := []; cs_keys := []; cs_poll_ok := true; cs_plug := [] |},
+         {| f_loadable := true; f_poll := None; f_services := None; f_roles := None; f_keys := None; f_plug := [] |}.
   eexists. split; [vm_compute; reflexivity|]. split; [vm_compute; reflexivity|]. vm_compute. discriminate.
 Qed.
 Theorem C20_refuted_before_fix_role_removed :
-  exists env st f fr, fresh false env f = Some fr /\ snd (load false env st f) = true /\ cs_roles (reload false env st f) <> cs_roles fr.
+  exists env st f fr, fresh false true env f = Some fr /\ snd (load false true env st f) = true /\ cs_roles (reload false true env st f) <> cs_roles fr.
 Proof.
-  exists [], {| cs_mem := ["s1"]; cs_eff := ["s1"]; cs_roles := [("admin", "*")]; cs_keys := []; cs_poll_ok := true |},
-         {| f_loadable := true; f_poll := None; f_services := Some ["s1"]; f_roles := Some [("user", "*")]; f_keys := None |}.
+  exists [], {| cs_mem := ["s1"]; cs_eff := ["s1"]; cs_roles := [("admin", "*")]; cs_keys := []; cs_poll_ok := true; cs_plug := [] |},
+         {| f_loadable := true; f_poll := None; f_services := Some ["s1"]; f_roles := Some [("user", "*")]; f_keys := None; f_plug := [] |}.
   eexists. split; [vm_compute; reflexivity|]. split; [vm_compute; reflexivity|]. vm_compute. discriminate.
 Qed.
+(* Load built the list with the plugins the PREVIOUS load had enabled: a file that no longer enables a plugin kept that
+   plugin's service federated (and one that newly enables it did not get it), unlike a restart on the same file. *)
+Theorem C20_refuted_before_fix_stale_plugin_service :
+  exists env st f fr, fresh true false env f = Some fr /\ snd (load true false env st f) = true /\
+                      ~ (forall x, In x (cs_eff (reload true false env st f)) <-> In x (cs_eff fr)).
+Proof.
+  exists [], {| cs_mem := ["s1"; "p"]; cs_eff := ["s1"; "p"]; cs_roles := []; cs_keys := []; cs_poll_ok := true; cs_plug := ["p"] |},
+         {| f_loadable := true; f_poll := None; f_services := Some ["s1"]; f_roles := None; f_keys := None; f_plug := [] |}.
+  eexists. split; [vm_compute; reflexivity|]. split; [vm_compute; reflexivity|].
+  vm_compute. intros H. destruct (proj1 (H "p")) as [E|[]]; [right; left; reflexivity | discriminate E].
+Qed.
 
-(* non-vacuity of the partial theorem's premises *)
+(* non-vacuity of the partial theorems' premises *)
 Example C20_example :
-  let st := {| cs_mem := ["s9"]; cs_eff := ["s9"]; cs_roles := [("old", "*")]; cs_keys := ["k9"]; cs_poll_ok := true |} in
-  let f := {| f_loadable := true; f_poll := None; f_services := Some ["s1"; "s1"]; f_roles := Some [("user", "list")]; f_keys := Some ["k1"] |} in
-  snd (load true ["e1"] st f) = true /\ cs_eff (reload true ["e1"] st f) = ["s1"; "e1"] /\ cs_roles (reload true ["e1"] st f) = [("user", "list")].
+  let st := {| cs_mem := ["s9"]; cs_eff := ["s9"]; cs_roles := [("old", "*")]; cs_keys := ["k9"]; cs_poll_ok := true; cs_plug := ["p9"] |} in
+  let f := {| f_loadable := true; f_poll := None; f_services := Some ["s1"; "s1"]; f_roles := Some [("user", "list")]; f_keys := Some ["k1"]; f_plug := ["p1"] |} in
+  snd (load true true ["e1"] st f) = true /\ cs_eff (reload true true ["e1"] st f) = ["s1"; "e1"; "p1"] /\ cs_roles (reload true true ["e1"] st f) = [("user", "list")].
 Proof. vm_compute. repeat split; reflexivity. Qed.
